@@ -109,11 +109,77 @@ def anchors(facts, fns):
     return {f["id"]: "|".join(sorted(up(f["id"]))) for f in fns}
 
 
+def _cval(e, lets=None, depth=0):
+    e = peel_block(peel(e))
+    if e.get("k") == "Lit" and "int" in e:
+        return e["int"]
+    if e.get("k") in ("Const", "ConstBlock") and isinstance(e.get("val"), int):
+        return e["val"]
+    if e.get("k") == "Cast":
+        return _cval(e["e"], lets, depth + 1)
+    if e.get("k") == "Bin" and e["op"] in ("Add", "Sub", "Mul") and depth < 6:
+        a, b = _cval(e["l"], lets, depth + 1), _cval(e["r"], lets, depth + 1)
+        if a is None or b is None:
+            return None
+        return {"Add": a + b, "Sub": a - b, "Mul": a * b}[e["op"]]
+    return None
+
+
+def slice_copy_proved(x):
+    """`dst.copy_from_slice(&src[a..b])` where dst is a fixed-size array of exactly b - a elements"""
+    if len(x.get("args", [])) != 2:
+        return False
+    dty = (peel(x["args"][0]).get("ty") or x["args"][0].get("ty") or "")
+    m = re.search(r"\[[^;\]]+; (\d+)\]", dty)
+    if not m:
+        return False
+    n = int(m.group(1))
+    for y in walk(x["args"][1]):
+        if y.get("k") == "Call" and (callee(y) or "") in ("core::ops::index::Index::index", "core::ops::index::IndexMut::index_mut") and len(y["args"]) == 2:
+            r = _range_of(y["args"][1])
+            if r:
+                lo = 0 if r[1] is None else _cval(r[1])
+                hi = _cval(r[2]) if r[2] is not None else None
+                if lo is not None and hi is not None and hi + (1 if r[0] == "incl" else 0) - lo == n:
+                    return True
+    return False
+
+
+def range_index_proved(f, x):
+    """`r[a..b]` with constant bounds, dominated by a reject-guard `r.len() < B` (B >= b) on the same receiver"""
+    from ..ir import path_of
+    rp = path_of(x["args"][0])
+    rng = _range_of(x["args"][1])
+    if rp is None or rng is None:
+        return False
+    lo = 0 if rng[1] is None else _cval(rng[1])
+    hi = _cval(rng[2]) if rng[2] is not None else None
+    if lo is None or hi is None or lo > hi:
+        return False
+    need = hi + (1 if rng[0] == "incl" else 0)
+    order = {id(y): i for i, y in enumerate(walk(f["body"]))}
+    for y in walk(f["body"]):
+        if y.get("k") != "If" or order[id(y)] > order[id(x)]:
+            continue
+        if any(z is x for z in walk(y)):
+            continue
+        c = peel_block(peel(y["c"]))
+        if c.get("k") != "Bin" or c["op"] not in ("Lt", "Le") or not any(z.get("k") == "Return" for z in walk(y["t"])):
+            continue
+        l = peel_block(peel(c["l"]))
+        if l.get("k") == "Call" and (callee(l) or "").endswith("::len") and l.get("args") and path_of(l["args"][0]) == rp:
+            b = _cval(c["r"])
+            if b is not None and (b if c["op"] == "Lt" else b + 1) >= need:
+                return True
+    return False
+
+
 @rule("T3", ["C06", "C14"], floor=5, doc="every panicking construct (panic!/assert!/unreachable!, unwrap/expect, time arithmetic, length-checked slice "
       "copies) on a deserialization path is triaged in spec/panic_sites.json as data-independent; an untriaged site is reported")
 def t3(facts, tier):
     triage = {t["key"]: t["reason"] for t in json.load(open(os.path.join(SPEC, "panic_sites.json")))}
     independent = []
+    proved = []
     seen = {}
     rf = reader_fns(facts)
     anc = anchors(facts, rf)
@@ -132,6 +198,12 @@ def t3(facts, tier):
                 if not data_dependent(f, x, tv, pm):
                     independent.append((f, x, k))
                     continue
+                if k == "rangeindex" and range_index_proved(f, x):
+                    proved.append((f, x))
+                    continue
+                if k.startswith("slicelen:") and slice_copy_proved(x):
+                    proved.append((f, x))
+                    continue
                 key = site_key(anc[f["id"]], k)
                 seen.setdefault(key, (f, x, 0))
                 seen[key] = (seen[key][0], seen[key][1], seen[key][2] + 1)
@@ -144,6 +216,9 @@ def t3(facts, tier):
             yield ob(pr, "T3", key, "violation", where(f, x),
                      f"untriaged panicking construct on a deserialization path that is fed by or control-dependent on data read "
                      f"from the stream: {key} — malformed input must yield Err, not a panic")
+    for f_, x_ in proved:
+        yield ob(["C06", "C14"], "T3", f"{f_['id']}:rangeindex:proved", "pass", where(f_, x_),
+                 f"{f_['id']}: constant sub-range of a buffer whose length a dominating reject-guard bounds from below")
     yield ob(["C06"], "T3", "data-independent-sites", "pass", "", f"{len(independent)} panicking construct(s) on deserialization paths are "
              f"neither fed by nor control-dependent on stream data", nontrivial=False)
 
